@@ -1,10 +1,22 @@
-(* C05: property theorems.  Statements only; every proof is `exact` of a lemma in Proofs/. *)
+(* C05 -- Binomial schedules perform the minimal possible number of forward steps
+   Property theorems only: each proof is one application of a lemma proved in Proofs/, followed by Print Assumptions. *)
 From Coq Require Import ZArith List Bool.
-From CS Require GW2 Inst RevCost.
+From CS Require Inst GW2 RevCost BinomDP.
+From CS Require Import Actions NAdvance Multistage Exec Sched RunFacts Projections BasicInv MultistageRun TLBridge.
 Import ListNotations.
 Open Scope Z_scope.
 
-(* work of the Multistage recursion = n + DP value = n + closed form (Griewank-Walther) *)
+(* Multistage on the extracted model: once the schedule reports exhaustion, the reference executor has carried out exactly
+   TC N S forward steps (S = the clamped total unit count), whatever the RAM/DISK split *)
+Theorem C05_multistage_forward_total : forall (N ram disk : Z) (tj : traj) (c : Multistage.cfg) (k : nat),
+  1 <= N -> 0 <= ram -> 0 <= disk -> (2 <= N -> 1 <= ram + disk) -> Multistage.construct N ram disk tj = Ok c ->
+  exists o0 m ls, run_case (PMulti N ram disk tj) (ms_params N ram disk) (repeat Next k) = Ok (o0, m, ls) /\ mon_ok m /\ no_raise ls /\
+     (forall s1, fst (fst (run_ops (ms_params N ram disk) {| ob := OMulti c Multistage.init (count_st RAM (labels c)) (count_st DISK (labels c)); started := false |} mon0 (repeat Next k))) = s1 ->
+        is_exhausted s1 = true -> fwd_total (cnt (mx m)) = Inst.TC tj N (total c)).
+Proof. exact multistage_run. Qed.
+Print Assumptions C05_multistage_forward_total.
+
+(* TC (the forward work of the recursion n_advance defines) = n + E n k, and E n k = the Griewank-Walther closed form; E = the model of optimal_extra_steps *)
 Module M_C05_chain.
 Import Inst.
 Theorem C05_chain :
@@ -18,17 +30,7 @@ Proof. exact (@Inst.C05_chain). Qed.
 Print Assumptions C05_chain.
 End M_C05_chain.
 
-(* the Multistage machine has executed exactly TC N S forward steps when it is done *)
-Module M_C05_multistage_total.
-Import Inst.
-Theorem C05_multistage_total :
-  forall (tr : NAdvance.traj) (N S : Z) (label : nat -> Actions.storage) (s : MSPot.st) (x : MSPot.xst),
-         MSPot.Inv (TC tr) N S label s x -> MSPot.pcv s = MSPot.PDone -> MSPot.done x = TC tr N S.
-Proof. exact (@Inst.C05_multistage_total). Qed.
-Print Assumptions C05_multistage_total.
-End M_C05_multistage_total.
-
-(* DP = schedule recursion = closed form, for any E, Eh satisfying the DP / recursion equations *)
+(* Griewank-Walther: DP value = schedule recursion = closed form, for any E, Eh satisfying the DP / recursion equations *)
 Module M_C05_gw_main.
 Import GW2.
 Theorem C05_gw_main :
@@ -59,10 +61,21 @@ Proof. exact (@GW2.GW_main). Qed.
 Print Assumptions C05_gw_main.
 End M_C05_gw_main.
 
-(* forward work of the revolve op list = (l+1) + step-count DP (table correctness as hypothesis) *)
-Module M_C05_revolve_work.
+(* the DP value is minimal among all bisection splits *)
+Module M_C05_dp_is_min.
+Import BinomDP.
+Theorem C05_dp_is_min :
+  forall n s i : nat,
+         (2 <= s)%nat ->
+         (s <= n - 1)%nat -> (1 <= i < n)%nat -> E n s <= Z.of_nat i + E i s + E (n - i) (s - 1).
+Proof. exact (@BinomDP.E_le). Qed.
+Print Assumptions C05_dp_is_min.
+End M_C05_dp_is_min.
+
+(* PARTIAL (Revolve): forward work of the generated op list = (l+1) + step-count DP, independent of uf, ub; table correctness is a hypothesis; clause "no executable schedule whatsoever does better" is not proved (DESIGN.md 6 C05) *)
+Module M_C05_revolve_work_partial.
 Import RevCost.
-Theorem C05_revolve_work :
+Theorem C05_revolve_work_partial :
   forall uf ub : Z,
          0 < uf ->
          forall (opt0 : list (list Z)) (M L : Z) (P : Z -> Z -> Z),
@@ -79,6 +92,6 @@ Theorem C05_revolve_work :
          RevGen.revolve fuel opt0 uf l cm = RevGen.GOk ops ->
          0 <= l <= L -> 0 <= cm <= M -> (1 <= l -> 1 <= cm) -> work ops = l + 1 + P cm l.
 Proof. exact (@RevCost.revolve_work). Qed.
-Print Assumptions C05_revolve_work.
-End M_C05_revolve_work.
+Print Assumptions C05_revolve_work_partial.
+End M_C05_revolve_work_partial.
 
